@@ -33,6 +33,8 @@ namespace sqf::runtime
             void (*on_slice_end)(runtime&) = nullptr;
             // a frame finished and is about to be popped by execute_do
             void (*on_frame_done)(runtime&) = nullptr;
+            // ... and has been popped; its value (if it had one) is back on the stack
+            void (*on_frame_popped)(runtime&, bool had_value) = nullptr;
             // around the execution of a single instruction; `after` runs before the
             // runtime-error flag is evaluated
             void (*on_instruction_before)(runtime&, instruction&) = nullptr;
